@@ -17,7 +17,7 @@ RULE = (
     "Non-trivial = >= 2 blocks, or a block within +-2 of the limit, or an oversize entry; distinct by case hash."
 )
 ASSUMPTIONS = ["nothing is demanded about WHICH error is raised when a block cannot be framed in one length byte"]
-REQUIRED_CLASSES = ["blocks>=2", "block.size=117", "block.size=116", "entry.would-make-118", "oversize.first", "oversize.middle", "oversize.last", "delkey", "delval", "extra-blocks",
+REQUIRED_CLASSES = ["blocks>=2", "block.size=117", "block.size=116", "entry.would-make-118", "oversize.first", "oversize.middle", "oversize.last", "delkey", "delval", "extra-blocks", "extra-as=generator", "extra-as=iterator",
                     "unframeable"]
 
 LIMIT = 117
@@ -85,7 +85,10 @@ def check(case, rec):
     f = sut.Bf3File({}, [sut.Bf3Component({0xC3: b"\x02"}, b"fw")])
     unframeable = any(s > 255 for s in sizes) or any(len(x) > 255 for x in extra)
     try:
-        f.set_config(cfg, list(extra))
+        # the parameter is declared Iterable[bytes]: lists, tuples and ONE-SHOT iterables (generator, iterator) must all work
+        how = (len(extra) + sum(len(x) for x in extra) + len(cfg)) % 4
+        rec.cls("extra-as=" + ("list", "tuple", "generator", "iterator")[how] if extra else "extra-as=none")
+        f.set_config(cfg, [list(extra), tuple(extra), (x for x in extra), iter(list(extra))][how])
     except Exception as e:
         if unframeable:
             rec.cls("unframeable")
